@@ -51,6 +51,7 @@ def run(tier, seed, replay=None):
     r.cov["trusted_base"] = ["coqc 8.16.1 kernel + vm_compute", "props/c01.py + props/tickgen.py (generator, table -> Gallina term)",
                              "harness tick.rs/c01.rs (program interpreter, honest footprints, candidate table, reference merge, state dump)"]
     r.proof_phase(THEOREMS)
+    r.tables_phase("Sched")
     if replay:
         d = json.load(open(replay))
         cases = [d["replay"]["case"]] if "case" in d.get("replay", {}) else []
